@@ -567,6 +567,8 @@ def sympy_axioms():
 def sym_getattr_hook(eng, st, v, name):
     if isinstance(v, VConc) and v.py == ("module", "sympy.logic.boolalg") and name in ("Or", "And"):
         return [("ok", st, VFunc("abstract", "spl." + name))]
+    if isinstance(v, VNp) and name == "equals":
+        return [("ok", st, VFunc("bound", v, "equals"))]
     if isinstance(v, VRef) and v.cls == "GPR" and name == "genes":
         return eng.apply_contract(st, eng.reg.get("GPR.genes@getter/proved"), [v], {})     # the PROVED contract of the getter
     return None
@@ -574,16 +576,50 @@ def sym_getattr_hook(eng, st, v, name):
 
 def sym_global_hook(eng, name):
     if name == "Symbol":
-        return VFunc("abstract", "Symbol")
+        return VClass("Symbol")          # constructor: the assumed contract Symbol.__init__ below; isinstance: sym_isinstance_hook
     return None
 
 
+def _symbol_new(eng, st, E):
+    return st, VNp(sym_symbol(unwrap(E["name"], "id")))
+
+
+REG.add(Contract("sympy", "Symbol.__init__", "C08", [("self", TNone()), ("name", TStr())], [Case("new")], assumed=True, key="Symbol.__init__",
+                 result=_symbol_new, note="sympy.Symbol(name): an expression determined by its name (the opaque term sympy.Symbol(name)), "
+                                          "true exactly when the name is not among the False ones"))
+sym_is_symbol = z3.Function("sympy.is_Symbol", NP, z3.BoolSort())
+sym_equals = z3.Function("sympy.equals", NP, NP, z3.BoolSort())
+
+
+def sym_isinstance_hook(eng, st, v, clsname):
+    if isinstance(v, VNp):
+        return sym_is_symbol(v.t) if clsname == "Symbol" else False
+    return None
+
+
+def sym_compare_hook(eng, st, op, a, b):
+    import ast as _ast
+    if isinstance(a, VNp) and isinstance(b, VNp) and isinstance(op, (_ast.Eq, _ast.NotEq)):
+        # ASSUMED: `==` between two sympy Symbols is structural equality of the expressions
+        c = a.t == b.t
+        return [("ok", st, VBool(z3.Not(c) if isinstance(op, _ast.NotEq) else c))]
+    return None
+
+
+def sym_call_method_hook(eng, st, recv, name, pos, kw):
+    if isinstance(recv, VNp) and name == "equals" and len(pos) == 1 and not kw and isinstance(pos[0], VNp):
+        return [("ok", st, VBool(sym_equals(recv.t, pos[0].t)))]      # meaning: sympy_eq_axioms (assumed)
+    return None
+
+
+def sympy_eq_axioms():
+    """ASSUMED: expr.equals(other) is True only for logically equivalent expressions"""
+    a, b, K = z3.Const("qa", NP), z3.Const("qb", NP), z3.Const("qK", IdSet)
+    return [z3.ForAll([a, b, K], z3.Implies(sym_equals(a, b), symsem(a, K) == symsem(b, K)),
+                      patterns=[z3.MultiPattern(sym_equals(a, b), symsem(a, K))])]
+
+
 def sym_call_abstract_hook(eng, st, f, pos, kw):
-    if f.a == "Symbol":
-        arg = pos[0] if pos else kw.get("name")
-        if arg is None or len(pos) + len(kw) != 1:
-            raise Unsupported("Symbol(...) with other arguments")
-        return [("ok", st, VNp(sym_symbol(unwrap(arg, "id"))))]
     if f.a in ("spl.Or", "spl.And"):
         if len(pos) == 1 and not kw and isinstance(pos[0], VConc) and isinstance(pos[0].py, tuple) and pos[0].py[0] == "starred":
             l = pos[0].py[1]
@@ -608,7 +644,9 @@ def _chain_abstract(*hs):
     return h
 
 
-HOOKS_SYM = chain_hooks(HOOKS_WK, {"getattr": sym_getattr_hook, "global": sym_global_hook})
+HOOKS_SYM = chain_hooks({"isinstance": sym_isinstance_hook}, HOOKS_WK,
+                        {"getattr": sym_getattr_hook, "global": sym_global_hook, "compare": sym_compare_hook,
+                         "call_method": sym_call_method_hook})
 HOOKS_SYM["call_abstract"] = _chain_abstract(sym_call_abstract_hook, call_abstract_hook)
 HOOKS = HOOKS_SYM
 
@@ -683,4 +721,38 @@ REG.add(Contract(MG, "GPR._symbolic_gpr", "C08", [("self", TRef("GPR")), ("expr"
 # `table:` cases, whose preconditions cover every well-formed node and None (obligation cases-cover-domain#0)
 _sy_any = Case("table:any", ensures=_sy_post)
 _sy_any.applies = lambda a, st: not isinstance(a["GPRGene_dict"], VNone)
-REG.get("GPR._symbolic_gpr").call_cases = [_sy_any]
+_sy_any0 = Case("notable:GPR", requires=lambda E: H(E, E.s0, "ast_tag")[E["expr"].t] == T_GPR, ensures=_sy_post)
+_sy_any0.applies = lambda a, st: isinstance(a["GPRGene_dict"], VNone)
+REG.get("GPR._symbolic_gpr").call_cases = [_sy_any, _sy_any0]
+
+
+# ---- GPR.as_symbolic (without a name table), GPR.__eq__
+def _as_post(E):
+    return sym_spec(E, heap3(E, E.s0), E["self"].t, E.res.t)
+
+
+def _as_result(eng, st, E):
+    E2 = Env(E.a, st, eng=eng)
+    return st, VNp(symres(*heap3(E2, st), E["self"].t))
+
+
+_nn = TNone()
+_nn.default = NONE
+REG.add(Contract(MG, "GPR.as_symbolic", "C08", [("self", TRef("GPR")), ("names", _nn)], [Case("no_display_names", ensures=_as_post)],
+                 pre=_gpr_pre, modifies=lambda E: [("heap", "gpr_genes")], axioms=_sy_axioms, key="GPR.as_symbolic", result=_as_result))
+
+
+def _eq_pre(E):
+    h, tg = heap3(E, E.s0), H(E, E.s0, "ast_tag")
+    return z3.And(wfh(*h, E["self"].t), tg[E["self"].t] == T_GPR, wfh(*h, E["other"].t), tg[E["other"].t] == T_GPR)
+
+
+def _eq_post(E):
+    """rules that compare equal are logically equivalent (K arbitrary)"""
+    h = heap3(E, E.s0)
+    return z3.Implies(E.res.t, semh(*h, E["self"].t, VIS_K) == semh(*h, E["other"].t, VIS_K))
+
+
+REG.add(Contract(MG, "GPR.__eq__", "C08", [("self", TRef("GPR")), ("other", TRef("GPR"))], [Case("any", ensures=_eq_post)],
+                 pre=_eq_pre, modifies=lambda E: [("heap", "gpr_genes")], axioms=lambda E: _sy_axioms(E) + sympy_eq_axioms(),
+                 key="GPR.__eq__", result="bool"))
